@@ -293,6 +293,11 @@ fn gen13(seed: u64, idx: u64, _t: Tier) -> J {
 		c.params.insert("fidelity_pty".into(), json!(true));
 		c.tty = true;
 	}
+	if !exhaustive && idx % 20 == 9 {
+		// stdout is a real pipe whose reader takes everything
+		c.params.insert("fidelity_pipe".into(), json!(true));
+		c.tty = false;
+	}
 	c.to_json()
 }
 
@@ -347,7 +352,24 @@ fn eval13(case: &J) -> Eval {
 		ev.nontrivial = true;
 		return ev;
 	}
-	let o = procsim::run(&c);
+	let o = if c.params.get("fidelity_pipe").is_some() {
+		// Fidelity run: same oracle, but stdout is a real pipe (the interposer is not loaded,
+		// so planned read faults do not apply: the model is told the same).
+		ev.count("fidelity.pipe", 1);
+		procsim::run_real(&c, &procsim::Real::ClosingPipe(usize::MAX))
+	} else {
+		procsim::run(&c)
+	};
+	let c = if c.params.get("fidelity_pipe").is_some() {
+		let mut m = c.clone();
+		m.nommap = false;
+		for f in &mut m.files {
+			f.plan = None;
+		}
+		m
+	} else {
+		c
+	};
 	procsim::write_plan_note(&mut ev, &c, &o);
 	ev.count("exhaustive.block", u64::from(c.params.get("exhaustive").and_then(J::as_bool).unwrap_or(false)));
 	ev.key = key_of(case);
